@@ -52,11 +52,10 @@ theorem stop_log {gs : List Group} {e : Ev} (h : e ∈ (stop gs).2) :
     · obtain ⟨x, hx, hx'⟩ := ih h
       exact ⟨x, List.mem_cons_of_mem _ hx, hx'⟩
 
-theorem add_log {gs : List Group} {p n : Nat} {e : Ev} (h : e ∈ (add gs p n).2.1) : ∃ q j ok, e = Ev.start q j ok := by
-  unfold add at h
-  split at h
-  · cases h
-  · exact startFirstIfClosed_log h
+theorem add_log {gs : List Group} {p n k : Nat} {e : Ev} (h : e ∈ (add gs p n k).2.1) : ∃ q j ok, e = Ev.start q j ok := by
+  rcases add_cases gs p n k with ⟨rc, _, h'⟩ | ⟨_, _, h'⟩
+  · rw [h'] at h; cases h
+  · rw [h'] at h; exact startFirstIfClosed_log h
 
 theorem start_log {gs : List Group} {e : Ev} (h : e ∈ (start gs).2.1) : ∃ q j ok, e = Ev.start q j ok := by
   cases gs with
@@ -82,9 +81,10 @@ theorem step_log_est {gs : List Group} (o : Op) {q : Nat} {x : Option (Nat × Na
       · left; exact h
       · right; subst h1; subst h2; exact ⟨⟨i, sy, rfl⟩, h3⟩
     · cases hl
-  | add p n =>
+  | add p n k =>
     obtain ⟨_, _, _, he⟩ := add_log hl
     cases he
+  | setiv p a b c => cases hl
   | remove p =>
     left
     rcases remove_log hl with ⟨_, _, _, he⟩ | ⟨g, hg, hp, _, ⟨_, he, _⟩ | ⟨_, he⟩ | ⟨_, he⟩⟩
@@ -297,19 +297,26 @@ theorem step_ct {gs : List Group} (hsrt : Sorted gs) (h : ClosedThreadless gs) (
         exact mgrCb_ct (evList_unique (by rw [evGroup_pref]; exact hgm.2)) (evList_ct h hgm.1 hs st sy)
           (by intro e; subst e; exact hno p i sy rfl)
     · exact h
-  | add p n =>
-    simp only [step, add]
-    split
-    · exact h
-    · apply startFirst_ct
+  | add p n k =>
+    simp only [step]
+    rcases add_cases gs p n k with ⟨rc, _, h'⟩ | ⟨_, _, h'⟩
+    · rw [h']; exact h
+    · rw [h']
+      apply startFirst_ct
       intro g hg hc
       rcases List.mem_append.mp (mem_sortG.mp hg) with hm | hm
       · exact h g hm hc
       · simp only [List.mem_singleton] at hm
         subst hm
         intro x hx
-        simp only [mkGroup, List.mem_replicate] at hx
+        simp only [mkGroupIv, List.mem_replicate] at hx
         rw [hx.2]
+  | setiv p a b c =>
+    simp only [step, setIvs]
+    intro g' hg' hc x hx
+    rcases mem_modG hg' with ⟨h1, _⟩ | ⟨g0, hg0, _, rfl⟩
+    · exact h g' h1 hc x hx
+    · exact h g0 hg0 hc x hx
   | remove p =>
     simp only [step, remove]
     split
